@@ -6,13 +6,14 @@
    compiler and destructors, independently of the input length.
 
    Statements only; proofs in Proofs/ParseDepthProofs.v, ParseDepthLimits.v, ParseDepthAst.v,
-   ParseDepthNoPanic.v; the lexer half cites Props/C08.v and Props/C12.v.
+   ParseDepthNoPanic.v; the lexer half cites Props/C08.v and Props/C12.v and adds Proofs/LexerBoundary.v.
    `cfg` = the five limits of the parser; `cfg_tree` = their values in the working tree
    (re-extracted on every run: Gen/Tables.v, Gen/ParseLimits.v); `cfg_unrepaired` = the tree
    before fixes/D11-ast-depth.patch (no MAX_EXPRESSION_DEPTH / MAX_ELIF_DEPTH). *)
 From Coq Require Import List Arith ZArith Lia.
 From TeraV Require Import Model.Value Model.Instr Model.Optimize Proofs.OptimizeProofs Props.C09.
-From TeraV Require Spec.Utf8Chars Model.Lexer Model.Report Proofs.LexerSpans Props.C08 Props.C12.
+From TeraV Require Spec.Utf8Chars Spec.Doc Model.Lexer Model.LexerSlices Model.Report Proofs.LexerSpans
+  Proofs.ReportProofs Proofs.LexerBoundary Proofs.LexerTokenCuts Props.C08 Props.C12.
 From TeraV Require Import Gen.Tables Gen.ParseLimits Model.ParseDepth
   Proofs.ParseDepthProofs Proofs.ParseDepthLimits Proofs.ParseDepthAst Proofs.ParseDepthNoPanic.
 Import ListNotations.
@@ -129,7 +130,8 @@ Theorem C06_parser_unreachable_reached_off_lexer_streams :
     match parse cfg_tree (fuel_for ts) ts with RPanic _ => True | _ => False end.
 Proof. exists [TAtom]. vm_compute. split; [reflexivity | exact I]. Qed.
 
-(* THE LEXER HALF, by citation.  Model/Lexer.v (C08) is a byte-level port of the WHOLE of
+(* THE LEXER HALF, by citation (1-3) and by Proofs/LexerBoundary.v, LexerTokenCuts.v (4-6).
+   Model/Lexer.v (C08) is a byte-level port of the WHOLE of
    basic_tokenize: the Template state (delimiter tests, check_ws_start!, raw blocks through
    skip_tag / memstr, comments, text up to find_start_marker) and the Variable/Tag state
    (scan_inside: whitespace skipping, end-delimiter tests, and inner_token = spread, two- and
@@ -143,30 +145,81 @@ Proof. exists [TAtom]. vm_compute. split; [reflexivity | exact I]. Qed.
      3. SLICING (C12_advance_total_on_boundaries / C12_advance_panics_off_boundary, Model/Report.v):
         advance!(n) = split_at(n) + location bookkeeping succeeds, with both pieces valid UTF-8
         again, exactly when n is a character boundary of the valid-UTF-8 rest, and panics otherwise.
-   PARTIAL - what is missing for "no slicing panic": that the offsets the lexer model computes ARE
-   character boundaries.  Model/Lexer.v states in its header that the boundary test of
-   split_at / get(..) is not modelled (offsets are next to ASCII bytes or 2-byte delimiters), and
-   no theorem of C08 or C12 derives it; nor are `&s[1..s.len() - 1]` in lex_string!, f64 parsing
-   and the Display of tokens modelled.  These stay with the runtime oracle of this property
-   (streams `multibyte-at-delimiter`, `delimiters` with 2-byte-character delimiters, every prefix
-   and single-character deletion of the corpus: a slicing panic would be a dead child or a caught
-   panic) and with C12's implementation-side span check. *)
-Theorem C06_lexer_total_and_boundary_safe_partial :
+     4. EVERY CUT IS ON A CHARACTER BOUNDARY (new here; Model/LexerSlices.v, Proofs/LexerBoundary.v).
+        Model/LexerSlices.v lists, next to the token model, every offset into the source at which
+        basic_tokenize cuts its `&str` - each advance!(n) (check_ws_start!, raw block, comment, text,
+        whitespace in a tag, end delimiters, spread and operators, lex_number!, lex_string!,
+        identifiers), `&s[1..s.len() - 1]` of lex_string!, `&rest.as_bytes()[offset..]`,
+        `&rest[offset..]` and `&rest[body_start..body_end]` of the raw-block loop - also for a run
+        that ends in a syntax error (the cuts made before the error).  Theorem: for every delimiter
+        set accepted by validate whose six strings are valid UTF-8 and every valid UTF-8 source, every
+        one of these offsets is a character boundary of the source.
+        The UTF-8 hypothesis on the delimiters is not an extra assumption about the caller: the
+        fields of `Delimiters` are `Cow<'static, str>` (delimiters.rs 9-22), and a Rust `str` is valid
+        UTF-8 by type invariant; validate (delimiters.rs 39-87) adds `len() == 2`, so a delimiter is two
+        ASCII characters or one 2-byte character - it cannot be a fragment of a character.  (The
+        model type `delims` holds arbitrary byte lists, hence the explicit hypothesis
+        `LexerSlices.delims_utf8`.)  The proof is UTF-8 self-synchronisation: a byte that announces
+        a k-byte character is, in a valid string, followed k bytes later by a boundary; so a byte
+        match of a delimiter (memstr, find_start_marker, starts2) starts and ends on boundaries and
+        every run that ends in an ASCII byte ends on one.
+     5. `rest.get(a..a+2) == Some(delim)` - the CHECKED slice, None off a boundary - is the byte
+        comparison Model/Lexer.v uses for it (C06_checked_get_is_byte_test): on valid UTF-8 the
+        bytes of a delimiter cannot start or end inside a character, so the model is not wrong
+        about the boundary test it does not perform.
+     6. Hence no slicing panic (fourth conjunct below): at a position reached by a listed cut, an
+        advance!(k) to another listed cut returns the two pieces, both valid UTF-8 again.
+   Not modelled, left to the runtime oracle: `num.parse::<f64>()`, the Display of tokens inside
+   error messages, `strip_prefix` / `trim_start` / `trim_end` (std functions on `str` that cannot
+   cut off a boundary).  Correspondence: family `slices` (Corr/CorrC06Lex.v) compares the model's
+   token byte ranges with the real lexer's and checks that every real token start/end is one of
+   the listed offsets, on sources with multi-byte characters next to every kind of delimiter and
+   on 2-byte-character delimiter sets. *)
+Theorem C06_lexer_total_and_boundary_safe :
   (forall dl src, Lexer.validate dl = Value.ROk tt ->
      Lexer.lex_ptoks dl src <> Value.RErr Value.ErrPanic) /\
   (forall dl src pt s e, Lexer.validate dl = Value.ROk tt -> Lexer.lex_ptoks dl src = Value.ROk pt ->
      In (s, e) (LexerSpans.offsets 0 pt) -> s <= e /\ e <= length src) /\
-  (forall st rest n, Utf8Chars.valid_utf8 rest -> n <= length rest ->
-     Report.is_char_boundary rest n = true ->
-     exists st', Report.advance st rest n = Some (st', firstn n rest, skipn n rest) /\
-       Utf8Chars.valid_utf8 (firstn n rest) /\ Utf8Chars.valid_utf8 (skipn n rest) /\
-       st' = Report.advance_over st (firstn n rest)) /\
+  (forall dl src, Lexer.validate dl = Value.ROk tt -> LexerSlices.delims_utf8 dl ->
+     Utf8Chars.valid_utf8 src ->
+     forall n, In n (LexerSlices.slice_offsets dl src) -> Report.is_char_boundary src n = true) /\
+  (forall src p rest k st, Utf8Chars.valid_utf8 src -> src = p ++ rest ->
+     Report.is_char_boundary src (length p) = true ->
+     Report.is_char_boundary src (length p + k) = true ->
+     exists st', Report.advance st rest k = Some (st', firstn k rest, skipn k rest) /\
+       Utf8Chars.valid_utf8 (firstn k rest) /\ Utf8Chars.valid_utf8 (skipn k rest) /\
+       Utf8Chars.valid_utf8 rest) /\
   (forall st rest n, Report.is_char_boundary rest n = false -> Report.advance st rest n = None).
-Proof.
-  split; [exact C08.C08_lexer_total|].
-  split; [exact C08.C08_token_ranges_in_source|].
-  split; [exact C12.C12_advance_total_on_boundaries | exact C12.C12_advance_panics_off_boundary].
-Qed.
+Proof. exact LexerBoundary.lexer_total_and_boundary_safe. Qed.
+
+(* the checked form `rest.get(a..a+2)` agrees with the byte window the model compares *)
+Theorem C06_checked_get_is_byte_test : forall s d a,
+  Utf8Chars.valid_utf8 s -> Utf8Chars.valid_utf8 d -> length d = 2 ->
+  (LexerSlices.get2 s a = Some d <-> Doc.window s a = d).
+Proof. exact LexerBoundary.get2_is_window. Qed.
+
+(* the cuts and the token ranges describe the same run: every token of an accepted run starts at
+   0, at the previous cut or after the whitespace advance!, and ends where an advance! ended
+   (Proofs/LexerTokenCuts.v); so every token byte range - the `range` of every lexer Span, which
+   C12 needs on character boundaries - lies on character boundaries of the source *)
+Theorem C06_token_ranges_are_cuts : forall dl src pt s e,
+  Lexer.lex_ptoks dl src = Value.ROk pt -> In (s, e) (LexerSpans.offsets 0 pt) ->
+  (s = 0 \/ In s (LexerSlices.slice_offsets dl src)) /\ In e (LexerSlices.slice_offsets dl src).
+Proof. exact LexerTokenCuts.token_ranges_are_cuts. Qed.
+
+Theorem C06_token_ranges_on_boundaries : forall dl src pt s e,
+  Lexer.validate dl = Value.ROk tt -> LexerSlices.delims_utf8 dl -> Utf8Chars.valid_utf8 src ->
+  Lexer.lex_ptoks dl src = Value.ROk pt -> In (s, e) (LexerSpans.offsets 0 pt) ->
+  Report.is_char_boundary src s = true /\ Report.is_char_boundary src e = true.
+Proof. exact LexerTokenCuts.token_ranges_on_boundaries. Qed.
+
+(* the hypothesis on the delimiters is needed by the MODEL (whose delimiters are byte lists): with
+   the second half of `é` and the first half of another character as "delimiter" - not a Rust
+   str - the run cuts inside a character *)
+Theorem C06_boundary_needs_utf8_delimiters :
+  exists dl src, Lexer.validate dl = Value.ROk tt /\ Utf8Chars.valid_utf8 src /\
+    exists n, In n (LexerSlices.slice_offsets dl src) /\ Report.is_char_boundary src n = false.
+Proof. exact LexerBoundary.boundary_needs_utf8_delimiters. Qed.
 
 (* THE FUSION PASS NEVER INDEXES OUT OF BOUNDS (panic-freedom of Chunk::optimize): for every
    chunk whose jump targets are in range the ported pass returns Some, i.e. no index_map /
@@ -187,7 +240,11 @@ Print Assumptions C06_nesting_limit_is_syntax_error_parens.
 Print Assumptions C06_optimize_indices_in_bounds.
 Print Assumptions C06_parser_unreachables_unreachable.
 Print Assumptions C06_parser_unreachable_reached_off_lexer_streams.
-Print Assumptions C06_lexer_total_and_boundary_safe_partial.
+Print Assumptions C06_lexer_total_and_boundary_safe.
+Print Assumptions C06_checked_get_is_byte_test.
+Print Assumptions C06_boundary_needs_utf8_delimiters.
+Print Assumptions C06_token_ranges_are_cuts.
+Print Assumptions C06_token_ranges_on_boundaries.
 
 (* non-vacuity: real runs with enough fuel *)
 Example C06_ex_accepts :
@@ -225,3 +282,27 @@ Example C06_ex_lexer_shaped :
              TTagStart; TWord WEndif; TTagEnd] in
   lexer_shaped MT ts = true /\ match parse cfg_tree (fuel_for ts) ts with ROk _ _ => True | _ => False end.
 Proof. vm_compute. split; [reflexivity | exact I]. Qed.
+
+(* the lexer half is not vacuous: a delimiter set made of 2-byte characters (÷ × {{ }} é è) is
+   accepted and satisfies the UTF-8 hypothesis *)
+Definition dl_2byte : Lexer.delims :=
+  Lexer.mkDelims [0xC3; 0xB7]%N [0xC3; 0x97]%N [0x7B; 0x7B]%N [0x7D; 0x7D]%N [0xC3; 0xA9]%N [0xC3; 0xA8]%N.
+Example C06_ex_2byte_delimiters_accepted :
+  Lexer.validate dl_2byte = Value.ROk tt /\ LexerSlices.delims_utf8 dl_2byte.
+Proof.
+  split; [reflexivity|]. repeat split; apply ReportProofs.valid_utf8b_ok; vm_compute; reflexivity.
+Qed.
+
+(* `é{{ 'é' }}`: text cut at 2, `{{` at 4, whitespace at 5, the string advance! at 9 and its
+   inner `&s[1..len-1]` at 6 and 8, whitespace at 10, `}}` at 12 *)
+Example C06_ex_slice_offsets :
+  LexerSlices.slice_offsets Lexer.default_delims
+    [0xC3; 0xA9; 0x7B; 0x7B; 0x20; 0x27; 0xC3; 0xA9; 0x27; 0x20; 0x7D; 0x7D]%N
+  = [2; 4; 5; 9; 6; 8; 10; 12].
+Proof. vm_compute. reflexivity. Qed.
+
+(* with é as comment start and è as comment end, `aé-日è` is text, then a comment: cuts at 1
+   (text), 4 (`é-`), 9 (comment end found by memstr after the 3-byte character) *)
+Example C06_ex_slice_offsets_2byte :
+  LexerSlices.slice_offsets dl_2byte [0x61; 0xC3; 0xA9; 0x2D; 0xE6; 0x97; 0xA5; 0xC3; 0xA8]%N = [1; 4; 9].
+Proof. vm_compute. reflexivity. Qed.
